@@ -359,6 +359,17 @@ func (gb *gcpBalancer) newSubConn() {
 	gb.newSubConnLocked()
 }
 
+// newSubConnIfEmpty re-creates the first channel of an emptied pool. The caller saw the pool empty
+// under the read lock and had to give that lock up: the pool is looked at again under the lock that
+// covers the creation, or a pool that was re-created meanwhile would get a channel too many.
+func (gb *gcpBalancer) newSubConnIfEmpty() {
+	gb.mu.Lock()
+	defer gb.mu.Unlock()
+	if len(gb.scRefs) == 0 {
+		gb.newSubConnLocked()
+	}
+}
+
 // newSubConnBelowMax creates a new SubConn (see newSubConn) if the pool has capacity (either
 // unlimited or maxSize is not reached) and reports whether the pool had capacity. The size check
 // and the creation are done under the same lock, so concurrent picks cannot exceed maxSize.
@@ -462,7 +473,7 @@ func (gb *gcpBalancer) getSubConnRoundRobin(ctx context.Context) *subConnRef {
 	for {
 		if len(gb.scRefList) == 0 {
 			gb.mu.RUnlock()
-			gb.newSubConn()
+			gb.newSubConnIfEmpty()
 			gb.mu.RLock()
 			if len(gb.scRefList) == 0 {
 				// Nothing to rotate over (the pool is empty and cannot be re-created right now).
